@@ -1,5 +1,7 @@
 #!/usr/bin/env python3
-"""MIR -> SMT check of the Q-ratio arithmetic of `finalize_with_options` at FULL width (C01).
+"""MIR -> SMT checks of two loop-free arithmetic slices at FULL width: the Q-ratio arithmetic of
+`finalize_with_options` (C01, C10; described first) and the length arithmetic of `update` (C11, C17;
+see run_check_len below).
 
 The Kani lemmas f_*_q* decide the Q-ratio arithmetic on restricted quartile domains only (two
 full-width dividers in one SAT query do not finish).  This second back end closes that gap for
@@ -1177,9 +1179,6 @@ def run_check_len(crate_dir, target_dir, logdir, timeout=120, mir=None):
         for what, post in posts:
             ask("post", i, what, pc + ["(not %s)" % post], "unsat", True)
     # coverage witnesses over all paths: the crossing piece and the >= 4 GiB slice are reachable
-    def some_path(extra):
-        return "(or false %s)" % " ".join("(and true %s)" % " ".join(p.cond) for _, p in allp if True) \
-            if not extra else extra
     anyp = "(or false %s)" % " ".join("(and true %s)" % " ".join(p.cond) for _, p in allp)
     if cex[0] is None:
         ask("coverage", -1, "some path takes a piece that crosses the 2^32-4 mark",
